@@ -9,8 +9,20 @@ Spec on impl (C), evaluated by the Lean driver on the implementation's own behav
            realms / encrypt functions: the model (a pure function of header, table, realm, encrypt) and
            the same two predicates are applied to every call on its own; a call whose verdict breaks
            them in the sequence but not on a fresh request -> auth-verdict-depends-on-earlier-call
+  authtable  1-3 calls with ONE `users` object of every shape (dict mutated between the calls, dict subclass, callable
+           returning a dict, callable taking the user name, callable returning a non-dict, callable that raises, callable
+           changing shape from call to call, object that is neither) whose answer changes between the calls (password
+           changed / user removed / user added / table broke / repaired), on one request object or on fresh ones: model
+           `runCalls` (CV.Model.AuthTable: verdict AND request.login after every call); `soundOnA` / `completeOnA` with the
+           answer the table gives DURING that call -> bypass(<shape>-table; ...), stale-table-answer(<what changed>; ...),
+           auth-verdict-depends-on-earlier-request(...)
   session  `traceOk` (honoured id => same fingerprint as everybody who used it, contents = what
            was stored under it; otherwise a fresh unique id and an empty session)
+  sessionjar  `Sessions(name=...)` for 4 names, requests carrying several cookies (a valid id under another / case-variant /
+           longer / shorter name, before and after the configured one): model `stepJ` (CV.Model.SessionCookie: id, contents,
+           response.cookie afterwards); `traceOk` with cookie = the value under the CONFIGURED name;
+           session-id-from-foreign-cookie(<relation>) when a request that is not honoured is given an id one of its other
+           cookies carried; response cookie under the configured name == request.session.sid
   vhost    plain comparison: with a gateway list and a remote address outside it, the path
            after VirtualHosts is the same with and without X-Forwarded-Host
 Stdlib leaves (base64, parse_http_list/parse_keqv_list, urljoin, sha1, uuid4) are computed with the
@@ -718,6 +730,14 @@ def eval_authseq(ctx, cases):
                 continue
             small, earlier = seq_minimise(c, k, (granted, login))
             verdict = 'granted' if granted and not fresh[0] else ('refused' if fresh[0] and not granted else 'login-differs')
+            if not earlier:
+                # first call of its sequence, yet a fresh request is judged differently: state outside the request object
+                ctx.violate(small, f'auth-verdict-depends-on-earlier-request({verdict})',
+                            f"{call['front']}(realm={call['realm']!r}, users={call['users']!r}, encrypt={call['enc']}) on a new request with "
+                            f"Authorization={c['hdr']!r} answered {obs!r} (granted={granted}, login={login!r}); the same call repeated on "
+                            f"another new request answers {fresh[2]!r} (granted={fresh[0]}): the verdict depends on requests handled "
+                            f"before; spec clause broken: {a[5:]}")
+                continue
             before = 'grant' if any(rec[j][0] for j in earlier) else 'refusal'
             prev = c['calls'][earlier[-1]]
             diff = '+'.join(seq_differing(prev, call)) or 'nothing'
@@ -1351,6 +1371,234 @@ def session_cases(ctx):
 
 
 # ---------------------------------------------------------------------------------------
+# how the session id travels: configured cookie name, other cookies, Set-Cookie (CV.Model.SessionCookie)
+# ---------------------------------------------------------------------------------------
+#
+# `Sessions(name=...)` with requests whose Cookie header carries SEVERAL cookies: somebody's (or the
+# presenter's own) valid id under another name, under a name differing in case, under a longer / shorter
+# name, and under the configured one.  The jar handed to the model is `request.cookie` as parsed by the real
+# SimpleCookie (stdlib leaf); compared: the id given, the contents shown, and `response.cookie` afterwards
+# (names and values, order not compared).  Judged on the implementation: `traceOk` with cookie = the value
+# under the CONFIGURED name, and `session-id-from-foreign-cookie` when a request that is not honoured ends
+# up with an id that one of its OTHER cookies carried.
+
+SJ_NAMES = ['circuits', 'sid', 'SESSION', 'c']
+
+
+def sj_other_names(name):
+    return [name.swapcase(), name.upper() if name != name.upper() else name.lower(), name + '2', 'x' + name, name[:-1] or 'z',
+            'other', 'circuits' if name != 'circuits' else 'session']
+
+
+def sj_relation(name, other):
+    if other.lower() == name.lower():
+        return 'case-variant'
+    if other.startswith(name) or other.endswith(name):
+        return 'longer-name'
+    if name.startswith(other):
+        return 'shorter-name'
+    return 'other-name'
+
+
+def run_sessionjar_impl(c):
+    from circuits.web import sessions as S
+    recorded = {}
+    real_sha = hashlib.sha1
+
+    def sha(data=b''):
+        h = real_sha(data)
+        recorded[bytes(data)] = h.hexdigest()
+        return h
+
+    saved = (S.sha, S.uuid)
+    cur = {'u': None}
+    S.sha = sha
+    S.uuid = lambda: _FakeUUID(cur['u'])
+    try:
+        comp = S.Sessions(name=c['name'])
+        sids, out = [], []
+        for st in c['steps']:
+            ip, agent = st['ip'], st['agent']
+            cur['u'] = st['u']
+            recorded.clear()
+            pairs = []
+            for nm, spec in st['cookies']:
+                v = cookie_value(spec, sids, ip, agent)
+                if v is not None:
+                    pairs.append((nm, v))
+            hdrs = [('User-Agent', agent)] if agent is not None else []
+            if pairs:
+                hdrs.append(('Cookie', '; '.join(f'{n}={v}' for n, v in pairs)))
+            rq, rs = mk_request(hdrs, ip=ip)
+            jar = [(k, m.value) for k, m in rq.cookie.items()]
+            comp.request(rq, rs)
+            sid = rq.session.sid
+            contents = [(k, v) for k, v in rq.session.items()]
+            after = [(k, m.value) for k, m in rs.cookie.items()]
+            act = st['act']
+            if act[0] == 'put':
+                with rq.session as d:
+                    d[act[1]] = act[2]
+            elif act[0] == 'expire':
+                rq.session.expire()
+            w = recorded.get(f'{ip}{agent or ""}'.encode('utf-8'))
+            sids.append(sid)
+            out.append({'sent': pairs, 'jar': jar, 'cookie': dict(jar).get(c['name']), 'sid': sid, 'contents': contents, 'w': w,
+                        'after': after})
+        return out
+    finally:
+        S.sha, S.uuid = saved
+
+
+def jar_token(jar):
+    return ';'.join(f'{sx(k)},{sx(v)}' for k, v in jar) if jar else '='
+
+
+def canon_stepj(a):
+    parts = [p.strip() for p in a.split('|')]
+    if len(parts) != 3:
+        return a.strip()
+    return parts[0] + ' | ' + ' '.join(sorted(parts[1].split())) + ' | ' + ';'.join(sorted(x for x in parts[2].split(';') if x != '='))
+
+
+def eval_sessionjar(ctx, cases):
+    ops, impl = [], []
+    for c in cases:
+        try:
+            obs = run_sessionjar_impl(c)
+        except Exception as e:  # noqa: BLE001
+            ctx.violate(c, f'session-exception({type(e).__name__})', f'Sessions(name={c["name"]!r}) raised {e!r}')
+            impl.append(None)
+            ops.append([])
+            continue
+        o = []
+        for st, ob in zip(c['steps'], obs):
+            agent = st['agent'] or ''
+            o.append(f"stepj {sx(c['name'])} {sx(st['ip'])} {sx(agent)} {jar_token(ob['jar'])} {sx(st['u'])} {opt(ob['w'])} {act_tokens(st['act'])}")
+        for st, ob in zip(c['steps'], obs):
+            agent = st['agent'] or ''
+            seen = ' '.join(f'{sx(k)},{sx(v)}' for k, v in ob['contents'])
+            o.append(f"rec {sx(st['ip'])} {sx(agent)} {opt(ob['cookie'])} {sx(ob['sid'])} {act_tokens(st['act'])} | {seen}".rstrip())
+        o.append('spec')
+        ops.append(o)
+        impl.append(obs)
+    answers = ctx.driver.batch('session', ops)
+    for c, obs, o, ans in zip(cases, impl, ops, answers):
+        if obs is None:
+            ctx.case(c, validated=False)
+            continue
+        if any(a == 'bad-op' for a in ans):
+            raise RuntimeError(f'driver rejected a sessionjar op: {[x for x, a in zip(o, ans) if a == "bad-op"][:1]!r}')
+        n = len(c['steps'])
+        name = c['name']
+        ok = True
+        for i, (ob, a) in enumerate(zip(obs, ans[:n])):
+            want = canon_stepj(f"{sx(ob['sid'])} | " + ' '.join(f'{sx(k)},{sx(v)}' for k, v in ob['contents']) + ' | ' + jar_token(ob['after']))
+            got = canon_stepj(a)
+            if got != want:
+                ok = False
+                ctx.disagree(c, {'where': 'sessionjar.step', 'step': i, 'impl': want, 'model': got,
+                                 'note': '<sid> | <contents> | <response.cookie afterwards>'})
+                break
+        # judged on the implementation alone (independently of the comparison with the model)
+        for i, ob in enumerate(obs):
+            after = dict(ob['after'])
+            if after.get(name) != ob['sid']:
+                ctx.violate(c, 'session-leak(cookie-and-session-id-differ)',
+                            f'Sessions(name={name!r}): response cookie {name!r} is {after.get(name)!r} but request.session.sid is {ob["sid"]!r}')
+            if ob['cookie'] != ob['sid']:
+                # not honoured: the id must not have been taken from one of the OTHER cookies of this request
+                for k, v in ob['jar']:
+                    if k != name and v == ob['sid']:
+                        ctx.violate(dict(c, steps=c['steps'][:i + 1]), f'session-id-from-foreign-cookie({sj_relation(name, k)})',
+                                    f'Sessions(name={name!r}): a request from {c["steps"][i]["ip"]} sending Cookie {ob["sent"]!r} was given the '
+                                    f'session id {ob["sid"]!r}, which it carried under the name {k!r}, not under the configured name')
+                        break
+        if ans[-1] != 'ok':
+            clause = ans[-1].split(' ', 1)[1] if ' ' in ans[-1] else ans[-1]
+            ctx.violate(c, classify_session(c, clause, obs),
+                        f'Sessions(name={name!r}) trace breaks clause {clause}: ' +
+                        '; '.join(f"{s['ip']}/{s['agent']!r} Cookie={o_['sent']!r} -> sid={o_['sid']!r} saw {o_['contents']!r}"
+                                  for s, o_ in zip(c['steps'], obs)))
+        ctx.count('sessionjar_name', name)
+        ctx.count('sessionjar_steps', n)
+        for s, ob in zip(c['steps'], obs):
+            ctx.count('sessionjar_cookies_in_header', len(ob['sent']))
+            ctx.count('sessionjar_configured_name', 'present' if ob['cookie'] is not None else 'absent')
+            ctx.count('sessionjar_outcome', 'honoured' if ob['cookie'] == ob['sid'] else 'fresh-id')
+            for k, _v in ob['sent']:
+                ctx.count('sessionjar_cookie_name', 'configured' if k == name else sj_relation(name, k))
+            if len(ob['jar']) != len(ob['sent']):
+                ctx.count('sessionjar_parser', f"{len(ob['sent'])} sent -> {len(ob['jar'])} parsed")
+        ctx.case(c, nontrivial=any(len(ob['sent']) > 0 for ob in obs), validated=ok)
+
+
+def sessionjar_cases(ctx):
+    rng = ctx.rng
+    cases = []
+
+    def uu():
+        return uuidmod.UUID(int=rng.getrandbits(128)).hex
+
+    # directed: a victim stores; then its id arrives under every other name, alone / before / after the configured name
+    own = ['sid', 0]
+    for name in SJ_NAMES:
+        for other in sj_other_names(name):
+            for ip2, ag2 in ((IPS[0], AGENTS[0]), (IPS[1], AGENTS[0]), (IPS[0], AGENTS[1])):
+                variants = [
+                    [[other, own]],
+                    [[other, own], [name, ['literal', 'abc']]],
+                    [[name, ['own-fp', 'zz']], [other, own]],
+                    [[other, own], [name, own]],
+                    [[name, own], [other, ['forged-prefix', 0, 'zz']]],
+                    [[other, ['literal', 'x']], [name, ['noslash', 0]], ['third', own]],
+                ]
+                for cookies in variants:
+                    cases.append({'kind': 'sessionjar', 'name': name, 'steps': [
+                        {'ip': IPS[0], 'agent': AGENTS[0], 'cookies': [], 'u': uu(), 'act': ['put', 'name', 'v1']},
+                        {'ip': ip2, 'agent': ag2, 'cookies': cookies, 'u': uu(), 'act': ['get']},
+                        {'ip': IPS[0], 'agent': AGENTS[0], 'cookies': [[name, own]], 'u': uu(), 'act': ['get']},
+                    ]})
+    # random histories with 0-3 cookies per request
+    for _ in range(250 * ctx.scale):
+        name = rng.choice(SJ_NAMES)
+        names = [name, name, name] + sj_other_names(name)
+        steps = []
+        vals = 0
+        for i in range(rng.randint(2, 6)):
+            cookies = []
+            used = set()
+            for _j in range(rng.choice([0, 1, 1, 2, 2, 3]) if i else 0):
+                nm = rng.choice(names)
+                if nm in used:
+                    continue
+                used.add(nm)
+                kind = rng.random()
+                if kind < 0.6:
+                    spec = ['sid', rng.randrange(i)]
+                elif kind < 0.75:
+                    spec = ['forged-prefix', rng.randrange(i), rng.choice(['zz', 'a/b'])]
+                elif kind < 0.85:
+                    spec = ['own-fp', rng.choice(['zz', 'id1'])]
+                elif kind < 0.92:
+                    spec = [rng.choice(['noslash', 'prefix-only']), rng.randrange(i)]
+                else:
+                    spec = ['literal', rng.choice(['abc', 'a/b', 'x'])]
+                cookies.append([nm, spec])
+            a = rng.random()
+            if a < 0.45:
+                vals += 1
+                act = ['put', rng.choice(['name', 'k2']), f'v{vals}']
+            elif a < 0.9:
+                act = ['get']
+            else:
+                act = ['expire']
+            steps.append({'ip': rng.choice(IPS), 'agent': rng.choice(AGENTS + [None]), 'cookies': cookies, 'u': uu(), 'act': act})
+        cases.append({'kind': 'sessionjar', 'name': name, 'steps': steps})
+    return cases
+
+
+# ---------------------------------------------------------------------------------------
 # virtual hosts
 # ---------------------------------------------------------------------------------------
 
@@ -1449,6 +1697,459 @@ def vhost_cases(ctx):
 # parameter obligations
 # ---------------------------------------------------------------------------------------
 
+# ---------------------------------------------------------------------------------------
+# every shape of user table, evaluated per call (CV.Model.AuthTable)
+# ---------------------------------------------------------------------------------------
+#
+# `users` may be a dict (mutated between the calls), a callable returning a dict, a callable taking the
+# user name, a callable returning something that is not a dict, a callable that raises, a callable that
+# changes its behaviour from call to call, or an object that is neither callable nor a dict.  A case is
+# a sequence of 1-3 front-end calls with ONE table object whose answer during call k is `calls[k]['ans']`
+# (the harness moves the object to its k-th state just before call k), on ONE request object
+# (`object: one`) or on a fresh request per call (`object: fresh`).  Model: `runCalls` (CV.Model.AuthTable);
+# judged on the implementation by `soundOnA` / `completeOnA` with the answer of THAT call.
+
+TABLE_SHAPES = ['dict', 'dict-subclass', 'not-dict', 'callable-dict', 'callable-name', 'callable-other',
+                'callable-raises', 'callable-mixed']
+TABLE_EXC = {'KeyError': KeyError, 'RuntimeError': RuntimeError, 'ValueError': ValueError, 'TypeError': TypeError,
+             'OSError': OSError}
+TABLE_NONDICT = {
+    'list': lambda: [('alice', 'wonder')],
+    'none': lambda: None,
+    'str': lambda: 'alice',
+    'int': lambda: 7,
+    'tuple': lambda: (('alice', 'wonder'),),
+    'mappingproxy': lambda: __import__('types').MappingProxyType({'alice': 'wonder'}),
+    'set': lambda: {'alice'},
+}
+
+
+def ans_tokens(ans):
+    t = ans['t']
+    if t == 'dict':
+        return ('dict ' + ' '.join(f'{sx(u)},{sx(p)}' for u, p in ans['users'])).rstrip()
+    if t == 'byname':
+        ents = [f"{sx(u)}," + (sx(p) if kind == 'pw' else ('~' if kind == 'absent' else '!')) for u, kind, p in ans['entries']]
+        return ' '.join(['byname', '~' if ans['default'] == 'absent' else '!'] + ents)
+    return 'nondict' if t == 'nondict' else 'raises'
+
+
+def ans_kind(ans):
+    t = ans['t']
+    if t == 'nondict':
+        return 'nondict:' + ans['value']
+    if t == 'raises':
+        return 'raises:' + ans['exc']
+    if t == 'byname':
+        return 'byname/' + ans['default']
+    return 'dict'
+
+
+def ans_view(ans, name):
+    """what the answer holds for `name`: ('pw', p) | ('absent',) | ('error',)"""
+    t = ans['t']
+    if name is None:
+        return ('no-user',)
+    if t == 'dict':
+        d = dict(map(tuple, ans['users']))
+        return ('pw', d[name]) if name in d else ('absent',)
+    if t == 'byname':
+        for u, kind, p in ans['entries']:
+            if u == name:
+                return ('pw', p) if kind == 'pw' else (('absent',) if kind == 'absent' else ('error',))
+        return ('absent',) if ans['default'] == 'absent' else ('error',)
+    return ('error',)
+
+
+def change_kind(prev, cur, name):
+    a, b = ans_view(prev, name), ans_view(cur, name)
+    if name is None:
+        return 'no-user-in-header'
+    if a == b:
+        return 'same-entry'
+    if b[0] == 'error':
+        return 'table-broke'
+    if a[0] == 'error':
+        return 'table-repaired'
+    if a[0] == 'pw' and b[0] == 'pw':
+        return 'password-changed'
+    return 'user-removed' if a[0] == 'pw' else 'user-added'
+
+
+def hdr_username(hdr):
+    if hdr is None or ' ' not in hdr:
+        return None
+    scheme, params = hdr.split(' ', 1)
+    if scheme.lower() == 'basic':
+        try:
+            return base64.decodebytes(params.encode('utf-8')).split(b':', 1)[0].decode('utf-8')
+        except Exception:  # noqa: BLE001
+            return None
+    if scheme.lower() == 'digest':
+        kv = leaves_of(hdr)[2]
+        return kv.get('username') if kv else None
+    return None
+
+
+def _eval_zero(ans):
+    """what `users()` does in the state `ans`"""
+    t = ans['t']
+    if t == 'dict':
+        return dict(map(tuple, ans['users']))
+    if t == 'nondict':
+        return TABLE_NONDICT[ans['value']]()
+    if t == 'raises':
+        raise TABLE_EXC[ans['exc']]('user table backend failed')
+    raise TypeError("users() missing 1 required positional argument: 'username'")
+
+
+def _eval_name(ans, name):
+    """what `users(name)` does in the state `ans`"""
+    if ans['t'] != 'byname':
+        return _eval_zero(ans)
+    for u, kind, p in ans['entries']:
+        if u == name:
+            if kind == 'pw':
+                return p
+            if kind == 'absent':
+                return None
+            raise KeyError(name)
+    if ans['default'] == 'absent':
+        return None
+    raise KeyError(name)
+
+
+class _TableObject:
+    """ONE `users` object for a whole sequence; `goto(k)` moves it to the state it has during call k"""
+
+    def __init__(self, shape, answers):
+        import collections
+        self.answers = answers
+        self.k = 0
+        self.evaluations = 0
+        if shape in ('dict', 'dict-subclass'):
+            self.obj = {} if shape == 'dict' else collections.OrderedDict()
+        elif shape == 'not-dict':
+            self.obj = TABLE_NONDICT[answers[0]['value']]()
+        elif shape == 'callable-name':
+            def users(username):
+                self.evaluations += 1
+                return _eval_name(self.answers[self.k], username)
+            self.obj = users
+        elif shape == 'callable-mixed':
+            def users(*args):
+                self.evaluations += 1
+                a = self.answers[self.k]
+                return _eval_name(a, args[0]) if args else _eval_zero(a)
+            self.obj = users
+        else:
+            def users():
+                self.evaluations += 1
+                return _eval_zero(self.answers[self.k])
+            self.obj = users
+        self.shape = shape
+
+    def goto(self, k):
+        self.k = k
+        if self.shape in ('dict', 'dict-subclass'):
+            self.obj.clear()
+            self.obj.update(map(tuple, self.answers[k]['users']))
+
+
+def login_token(rq):
+    if rq.login is None:
+        return 'unset'
+    if rq.login is False:
+        return 'no'
+    return 'user=' + sx(rq.login) if isinstance(rq.login, str) else 'other:' + repr(rq.login)
+
+
+def impl_table_seq(c, calls=None, only=None):
+    """run the calls with ONE table object -> [(granted, login_if_True, obs, exc, login attribute afterwards)]"""
+    calls = c['calls'] if calls is None else calls
+    hdrs = [] if c['hdr'] is None else [('Authorization', c['hdr'])]
+    tbl = _TableObject(c['shape'], [call['ans'] for call in calls])
+    rq = rs = None
+    out = []
+    for k, call in enumerate(calls):
+        if rq is None or c['object'] == 'fresh':
+            rq, rs = mk_request(hdrs, method=c['method'])
+        tbl.goto(k)
+        r = impl_call(rq, rs, call['front'], call['realm'], tbl.obj, ENC_FUN[call['enc']])
+        out.append(r + (login_token(rq),))
+    return out
+
+
+def classify_table(c, k, clause):
+    """signature of a verdict of call k that breaks `clause` also on a fresh request with a fresh table"""
+    ans = c['calls'][k]['ans']
+    view = ans_view(ans, hdr_username(c['hdr']))
+    what = {'pw': 'entry-present', 'absent': 'unknown-user', 'error': 'table-error', 'no-user': 'no-user-in-header'}[view[0]]
+    if clause == 'bypass':
+        return f"bypass({c['shape']}-table; {ans_kind(ans).split(':')[0]}; {what})"
+    return f"valid-credentials-refused({c['shape']}-table; {ans_kind(ans).split(':')[0]})"
+
+
+def eval_authtable(ctx, cases):
+    ops, impl = [], []
+    for c in cases:
+        btok, ktok, _kv = leaves_of(c['hdr'])
+        rec = impl_table_seq(c)
+        head = f"{sx(c['method'])} {opt(c['hdr'])} {btok} {ktok}"
+        o = []
+
+        def call_tokens(call):
+            return f"/ {call['front']} {call['enc']} {sx(call['realm'])} {ans_tokens(call['ans'])}"
+        if c['object'] == 'one':
+            body = ' '.join(call_tokens(call) for call in c['calls'])
+            o.append(f'seqt leaf {head} unset {body}')
+            o.append(f'seqt conc {head} unset {body}')
+        else:
+            for call in c['calls']:
+                o.append(f'seqt leaf {head} unset {call_tokens(call)}')
+                o.append(f'seqt conc {head} unset {call_tokens(call)}')
+        nseq = len(o)
+        for call, (granted, login, _obs, _exc, _lg) in zip(c['calls'], rec):
+            senc = 'dflt' if call['front'] == 'digest' else call['enc']
+            tail = (f"{senc} {sx(call['realm'])} {sx(c['method'])} {opt(c['hdr'])} {btok} {ktok} {1 if granted else 0} "
+                    f"{opt(login)} {ans_tokens(call['ans'])}")
+            o.append('spect leaf ' + tail)
+            o.append('spect conc ' + tail)
+        ops.append((o, nseq))
+        impl.append(rec)
+    answers = ctx.driver.batch('auth', [o for o, _ in ops])
+    pname = {'check': 'check_auth', 'basic': 'basic_auth', 'digest': 'digest_auth'}
+    for c, rec, (o, nseq), ans in zip(cases, impl, ops, answers):
+        if any(a == 'bad-op' for a in ans):
+            raise RuntimeError(f'driver rejected an authtable op for case {c!r}: {[x for x, a in zip(o, ans) if a == "bad-op"][:1]!r}')
+        n = len(c['calls'])
+        if c['object'] == 'one':
+            mleaf, mconc = ans[0].split(' '), ans[1].split(' ')
+        else:
+            mleaf, mconc = [ans[2 * i] for i in range(n)], [ans[2 * i + 1] for i in range(n)]
+        ok = True
+        letters = []
+        reported = False
+        name = hdr_username(c['hdr'])
+        for k, (call, (granted, login, obs, exc, lg)) in enumerate(zip(c['calls'], rec)):
+            for how, toks in (('leaf tables', mleaf), ('concreteLeaves', mconc)):
+                mobs, _, mlg = toks[k].rpartition(':')
+                mobs = mobs.split('=', 1)[1]
+                if mobs != obs or mlg != lg:
+                    ok = False
+                    ctx.disagree(c, {'where': f"authtable.call{k}.{call['front']}", 'impl': f'{obs} login={lg}' + (f' ({exc})' if exc else ''),
+                                     'model': f'{mobs} login={mlg}', 'note': f'runCalls under {how}; table answer of this call: {ans_kind(call["ans"])}'})
+                    break
+            letters.append(seq_letter(mleaf[k].rpartition(':')[0].split('=', 1)[1]))
+            if exc:
+                ctx.count('authtable_exception', f"{ans_kind(call['ans']).split(':')[0]}->{exc}")
+            a = ans[nseq + 2 * k]
+            if not a.startswith('fail'):
+                a = ans[nseq + 2 * k + 1]
+            if not a.startswith('fail') or reported:
+                continue
+            reported = True
+            clause = a[5:]
+            # the same call on a fresh request with a fresh table object that only ever had this answer
+            single = dict(c, calls=[call], object='one')
+            fresh = impl_table_seq(single)[0]
+            desc = (f"{pname[call['front']]}(realm={call['realm']!r}, users=<{c['shape']} table answering {call['ans']!r} during this call>, "
+                    f"encrypt={call['enc']}) with Authorization={c['hdr']!r}")
+            if (fresh[0], fresh[1]) == (granted, login):
+                if clause == 'bypass':
+                    ctx.violate(single, classify_table(c, k, 'bypass'),
+                                f'{desc} granted access although the table holds no password for the user against which the credentials verify')
+                else:
+                    ctx.violate(single, classify_table(c, k, clause),
+                                f'{desc}: well-formed credentials verifying against the table answer were not accepted (observed {obs})')
+                continue
+            verdict = 'granted' if granted and not fresh[0] else ('refused' if fresh[0] and not granted else 'login-differs')
+            if k == 0:
+                # first call with this table object on a new request, yet judged differently when repeated: state kept elsewhere
+                ctx.violate(single, f'auth-verdict-depends-on-earlier-request({verdict}; {c["shape"]}-table)',
+                            f'{desc} answered {obs!r} (granted={granted}, login={login!r}) as the first call on a new request with a new table '
+                            f'object; repeated it answers {fresh[2]!r} (granted={fresh[0]}): the verdict depends on requests handled before; '
+                            f'spec clause broken: {clause}')
+                continue
+            # the verdict depends on what happened before: minimise to one earlier call
+            small, j = dict(c, calls=c['calls'][:k + 1]), k - 1
+            for jj in range(k):
+                r2 = impl_table_seq(dict(c, calls=[c['calls'][jj], call]))[-1]
+                if (r2[0], r2[1]) == (granted, login):
+                    small, j = dict(c, calls=[c['calls'][jj], call]), jj
+                    break
+            prev = c['calls'][j]
+            change = change_kind(prev['ans'], call['ans'], name)
+            before = 'grant' if rec[j][0] else 'refusal'
+            if change == 'same-entry':
+                sig = f'{SEQ_CLAUSE}({verdict}-after-{before}; {c["shape"]}-table)'
+            else:
+                sig = f'stale-table-answer({change}; {verdict}-after-{before}; {c["shape"]}-table; {"one-request" if c["object"] == "one" else "fresh-requests"})'
+            ctx.violate(small, sig,
+                        f"{desc} answered {obs!r} (granted={granted}, login={login!r}) after an earlier call during which the SAME table object "
+                        f"answered {prev['ans']!r} had been answered {rec[j][2]!r}; with a table that only ever gave this call's answer the "
+                        f"same call answers {fresh[2]!r} (granted={fresh[0]}) - the verdict must follow what the table answers NOW "
+                        f"({change}); spec clause broken: {clause}")
+        ctx.count('authtable_shape', c['shape'])
+        ctx.count('authtable_object', c['object'])
+        ctx.count('authtable_calls', n)
+        ctx.count('authtable_answers', '>'.join(ans_kind(call['ans']).split(':')[0] for call in c['calls']))
+        ctx.count('authtable_expected', '>'.join(letters))
+        ctx.count('authtable_tag', c.get('tag', '?'))
+        for x, y in zip(c['calls'], c['calls'][1:]):
+            ctx.count('authtable_change', change_kind(x['ans'], y['ans'], name))
+        for call in c['calls']:
+            if call['ans']['t'] == 'nondict':
+                ctx.count('authtable_nondict_value', call['ans']['value'])
+        ctx.count('authtable_fronts', '>'.join(call['front'] for call in c['calls']))
+        ctx.case(c, nontrivial=c['hdr'] is not None, validated=ok)
+
+
+def shape_answer(shape, rng, users, name=None):
+    """the answer a table of this shape gives when it holds `users` ([[u, p], ...])"""
+    if shape in ('dict', 'dict-subclass', 'callable-dict'):
+        return {'t': 'dict', 'users': users}
+    if shape == 'callable-name':
+        default = 'absent' if rng.random() < 0.7 else 'raises'
+        return {'t': 'byname', 'default': default, 'entries': [[u, 'pw', p] for u, p in users]}
+    if shape in ('not-dict', 'callable-other'):
+        return {'t': 'nondict', 'value': name or rng.choice(sorted(TABLE_NONDICT))}
+    if shape == 'callable-raises':
+        return {'t': 'raises', 'exc': name or rng.choice(sorted(TABLE_EXC))}
+    raise ValueError(shape)
+
+
+def authtable_directed():
+    """the same on every seed and in both tiers"""
+    rnd = random.Random(0x7AB1E)
+    cases = []
+    tables = {'right': {'alice': 'wonder', 'root': 's3cret'}, 'changed': {'alice': 'changed', 'root': 's3cret'},
+              'removed': {'root': 's3cret'}, 'empty': {}}
+    hdrs = [('basic', 'GET', 'Basic ' + b64('alice:wonder')), ('basic', 'POST', 'Basic ' + b64('mallory:x')),
+            ('digest', 'GET', seq_header_digest('alice', 'wonder', 'Site', 'GET', None)),
+            ('digest', 'POST', seq_header_digest('alice', 'wonder', 'Site', 'POST', 'auth'))]
+
+    def ans_for(shape, tname, default='absent'):
+        users = [[u, p] for u, p in tables[tname].items()]
+        if shape == 'callable-name':
+            return {'t': 'byname', 'default': default, 'entries': [[u, 'pw', p] for u, p in users]}
+        return {'t': 'dict', 'users': users}
+
+    for scheme, method, hdr in hdrs:
+        other = 'basic' if scheme == 'basic' else 'digest'
+        enc = 'ident' if scheme == 'basic' else 'dflt'
+        fronts = [('check', 'check'), (other, other), ('check', other), (other, 'check')]
+        # content changes between the two calls: password changed / user removed / user added / nothing, every ordered pair
+        for shape, default in (('dict', None), ('dict-subclass', None), ('callable-dict', None), ('callable-name', 'absent'),
+                               ('callable-name', 'raises'), ('callable-mixed', 'absent')):
+            for t1, t2 in itertools.product(tables, tables):
+                for f1, f2 in (fronts[:1] if shape == 'dict-subclass' else fronts):
+                    objs = ('one', 'fresh') if (f1, f2) == ('check', 'check') else ('one',)
+                    for obj in objs:
+                        if shape == 'callable-mixed':
+                            a1, a2 = ans_for('callable-dict', t1), ans_for('callable-name', t2, default)
+                            if rnd.random() < 0.5:
+                                a1, a2 = ans_for('callable-name', t1, default), ans_for('callable-dict', t2)
+                        else:
+                            a1, a2 = ans_for(shape, t1, default), ans_for(shape, t2, default)
+                        cases.append({'kind': 'authtable', 'method': method, 'hdr': hdr, 'shape': shape, 'object': obj,
+                                      'tag': 'directed-content-change',
+                                      'calls': [{'front': f1, 'enc': enc, 'realm': 'Site', 'ans': a1},
+                                                {'front': f2, 'enc': enc, 'realm': 'Site', 'ans': a2}]})
+        # tables that fail: before / after / instead of a good answer
+        errs = [{'t': 'nondict', 'value': v} for v in sorted(TABLE_NONDICT)] + [{'t': 'raises', 'exc': e} for e in sorted(TABLE_EXC)] \
+            + [{'t': 'byname', 'default': 'raises', 'entries': []}, {'t': 'byname', 'default': 'absent', 'entries': [['alice', 'raises', '']]}]
+        good = [ans_for('callable-dict', 'right'), ans_for('callable-name', 'right')]
+        for err in errs:
+            for g in good:
+                for seq in ([g, err], [err, g], [err, err], [g, err, g]):
+                    for front in ('check', other):
+                        cases.append({'kind': 'authtable', 'method': method, 'hdr': hdr, 'shape': 'callable-mixed',
+                                      'object': rnd.choice(['one', 'one', 'fresh']), 'tag': 'directed-table-error',
+                                      'calls': [{'front': front, 'enc': enc, 'realm': 'Site', 'ans': a} for a in seq]})
+        for front in ('check', other):
+            for v in sorted(TABLE_NONDICT):
+                for shape in ('not-dict', 'callable-other'):
+                    a = {'t': 'nondict', 'value': v}
+                    cases.append({'kind': 'authtable', 'method': method, 'hdr': hdr, 'shape': shape, 'object': 'one',
+                                  'tag': 'directed-' + shape, 'calls': [{'front': front, 'enc': enc, 'realm': 'Site', 'ans': a}] * 2})
+            for e in sorted(TABLE_EXC):
+                a = {'t': 'raises', 'exc': e}
+                cases.append({'kind': 'authtable', 'method': method, 'hdr': hdr, 'shape': 'callable-raises', 'object': 'one',
+                              'tag': 'directed-callable-raises', 'calls': [{'front': front, 'enc': enc, 'realm': 'Site', 'ans': a}] * 2})
+    # without / with a degenerate header the table is never evaluated: nothing is granted, nothing raised by the table
+    for hdr in (None, 'Basic', 'Digest username="alice"', 'Bearer abc'):
+        for shape in ('not-dict', 'callable-other', 'callable-raises', 'callable-dict', 'callable-name'):
+            a = shape_answer(shape, rnd, [['alice', 'wonder']])
+            for front in ('check', 'basic', 'digest'):
+                cases.append({'kind': 'authtable', 'method': 'GET', 'hdr': hdr, 'shape': shape, 'object': 'one',
+                              'tag': 'directed-degenerate-header', 'calls': [{'front': front, 'enc': 'ident', 'realm': 'Site', 'ans': a}] * 2})
+    return cases
+
+
+def authtable_random(ctx):
+    rng = ctx.rng
+    cases = []
+    for _ in range(750 * ctx.scale):
+        enc = rng.choice(ENCS)
+        realm = rng.choice(REALMS)
+        method = rng.choice(METHODS)
+        clear, users = gen_table(rng, enc)
+        k = rng.random()
+        digest = False
+        if k < 0.45:
+            hdr, tag = gen_basic(rng, clear, users)
+        elif k < 0.95:
+            digest = True
+            hdr, tag = gen_digest(rng, clear, realm, method)
+        else:
+            hdr, tag = rng.choice(FIXED_HEADERS + [None]), 'fixed'
+        shape = rng.choice(TABLE_SHAPES + ['callable-mixed', 'callable-name', 'callable-dict'])
+        fixed_bad = None
+        if shape in ('not-dict', 'callable-other'):
+            fixed_bad = rng.choice(sorted(TABLE_NONDICT))
+        elif shape == 'callable-raises':
+            fixed_bad = rng.choice(sorted(TABLE_EXC))
+        calls = []
+        for _i in range(rng.choice([1, 2, 2, 3])):
+            cl = dict(clear)
+            m = rng.random()
+            if m < 0.25:
+                pass
+            elif m < 0.45 and cl:
+                del cl[rng.choice(sorted(cl))]
+            elif m < 0.65 and cl:
+                cl[rng.choice(sorted(cl))] = rng.choice(PWS + ['changed'])
+            elif m < 0.80:
+                cl[rng.choice(USERS + UNKNOWN)] = rng.choice(PWS)
+            elif m < 0.90:
+                cl = {}
+            else:
+                cl = {u: rng.choice(PWS) for u in rng.sample(USERS, rng.randint(1, 3))}
+            e_call = enc if rng.random() < 0.7 else rng.choice(ENCS)
+            e_store = e_call if rng.random() < 0.85 else rng.choice(ENCS)
+            if digest and rng.random() < 0.8:
+                e_store = 'ident'
+            r_call = realm if rng.random() < 0.75 else rng.choice(REALMS)
+            held = [[u, enc_store(e_store, u, p)] for u, p in cl.items()]
+            if shape == 'callable-mixed':
+                sub = rng.choice(['callable-dict', 'callable-dict', 'callable-name', 'callable-name', 'callable-other', 'callable-raises'])
+                a = shape_answer(sub, rng, held)
+            else:
+                a = shape_answer(shape, rng, held, fixed_bad)
+            if a['t'] == 'byname' and rng.random() < 0.15 and a['entries']:
+                e = rng.choice(a['entries'])
+                e[1], e[2] = rng.choice(['absent', 'raises']), ''
+            calls.append({'front': rng.choice(['check', 'check', 'basic', 'digest']), 'enc': e_call, 'realm': r_call, 'ans': a})
+        cases.append({'kind': 'authtable', 'method': method, 'hdr': hdr, 'shape': shape, 'object': rng.choice(['one', 'one', 'fresh']),
+                      'tag': 'random:' + tag, 'calls': calls})
+    return cases
+
+
+def authtable_cases(ctx):
+    return authtable_directed() + authtable_random(ctx)
+
+
 def param_obligations(ctx):
     from circuits.web import _httpauth
     # the list of required Digest fields, read from the function's source
@@ -1484,7 +2185,7 @@ def param_obligations(ctx):
 
 # ---------------------------------------------------------------------------------------
 
-EVAL = {'leaf': eval_leaf, 'auth': eval_auth, 'authseq': eval_authseq, 'md5': eval_md5, 'session': eval_session, 'vhost': eval_vhost}
+EVAL = {'leaf': eval_leaf, 'auth': eval_auth, 'authseq': eval_authseq, 'authtable': eval_authtable, 'md5': eval_md5, 'session': eval_session, 'sessionjar': eval_sessionjar, 'vhost': eval_vhost}
 
 
 def run(ctx):
@@ -1499,6 +2200,14 @@ def run(ctx):
                 'authseq: 2-3 calls on ONE request object - all ordered pairs of 10 Basic / 8 Digest configurations (table x '
                 'realm x encrypt, incl. the same one twice) x 9 front-end pairs x 7 headers + fixed triples (same on every seed '
                 'and tier) + random variations of a random configuration; every call judged on its own; '
+                'authtable: ONE users object per sequence, its answer set per call - every ordered pair of 4 table contents (right / '
+                'password changed / user removed / empty) x 6 shapes (dict, dict subclass, callable->dict, callable(name) with None or '
+                'KeyError for unknown names, callable changing shape) x front-end pairs x 4 headers (Basic, Digest with and without qop, '
+                'unknown user) x {one request, fresh requests}; 14 failing answers (7 non-dict values, 5 exception types, by-name lookups '
+                'that raise) before / after / instead of a good answer; non-callable non-dict objects; degenerate headers (table never '
+                'evaluated); + random sequences of 1-3 calls over random tables, realms, encrypt variants; '
+                'sessionjar: 4 configured cookie names x 7 other names (case variant, upper/lower, longer, prefixed, shorter, unrelated) x 3 '
+                'presenters x 6 cookie arrangements + random histories with 0-3 cookies per request; '
                 'session: all pairs over 3 addresses x 3 agents x 10 cookie shapes (exhaustive) + random histories of 2-8 '
                 'requests; vhost: 6 gateway configurations x 3 remotes x 4 Host x 10 X-Forwarded-Host x 2 paths (exhaustive) '
                 '+ random; non-trivial = a header / more than one request / an X-Forwarded-Host is present; distinct = distinct case')
@@ -1512,19 +2221,24 @@ def run(ctx):
         'sha1 (session fingerprint): uninterpreted W; the recorded digest of the live call is handed to the model',
         'uuid4 replaced by a seeded double (module global circuits.web.sessions.uuid); ids are assumed unguessable/unique',
         'str.lower() on scheme and forwarded host modelled on ASCII (no non-ASCII character lowers into an ASCII letter of "basic"/"digest")',
-        'SimpleCookie parsing: the model receives request.cookie[name].value as parsed by the real Request',
+        'SimpleCookie parsing / Morsel.OutputString: the model receives request.cookie (all names and values) as parsed by the real Request '
+        'and is compared with response.cookie (names, values) after Sessions.request; cookie attributes (Path, Domain, ...) and the '
+        'Set-Cookie header text are stdlib and not modelled',
+        'user-table doubles: one Python object per sequence whose state the harness sets before each call (a dict mutated in place, '
+        'functions with the real signatures `()`, `(username)`, `(*args)`); by-name callables return str or None or raise',
         'Lean String.fromUTF8? == bytes.decode("utf-8") (validated on the generated invalid sequences); CV.Auth.utf8Decode likewise (utf8dec leaf cases)',
         'header text is a Python str without lone surrogates (List Char); request headers arrive that way from the HTTP parser',
     ]
     ctx.assumptions += [
-        'user tables are dicts (or callables yielding them) from str to str',
+        'user tables map str to str: a dict, a callable returning one, a callable taking the user name and returning str / None; anything '
+        'else (non-dict object, callable returning a non-dict, callable raising) must not authenticate',
         'a request that fails with an exception is refused (answered with an error page by the dispatcher)',
         'Digest nonce freshness and uri == request line are not part of the statement (the code checks neither)',
         'trusted_gateways=None means "no restriction" (documented default)',
     ]
     param_obligations(ctx)
-    groups = [('md5', md5_cases(ctx)), ('leaf', leaf_cases(ctx)), ('auth', auth_cases(ctx) + client_cases(ctx)), ('authseq', authseq_cases(ctx)),
-              ('session', session_cases(ctx)), ('vhost', vhost_cases(ctx))]
+    groups = [('md5', md5_cases(ctx)), ('leaf', leaf_cases(ctx)), ('auth', auth_cases(ctx) + client_cases(ctx)), ('authseq', authseq_cases(ctx)), ('authtable', authtable_cases(ctx)),
+              ('session', session_cases(ctx)), ('sessionjar', sessionjar_cases(ctx)), ('vhost', vhost_cases(ctx))]
     corpus = ctx.corpus()
     for c in corpus:
         EVAL[c['kind']](ctx, [c])
